@@ -12,8 +12,11 @@ ASSUMPTIONS = [
 _INODE_NAMES = {1: "dir", 2: "file", 3: "slink", 4: "bdev", 5: "cdev", 6: "fifo",
                 7: "socket", 8: "dir_ext", 9: "file_ext", 10: "slink_ext", 11: "bdev_ext",
                 12: "cdev_ext", 13: "fifo_ext", 14: "socket_ext"}
-_PR_UNWIND = ["pr_vfmt.0:64", "pr_vfmt.1:3", "pr_vfmt.2:12", "pr_vfmt.3:12", "pr_ndigits.0:24",
-              "pr_init.0:13", "pr_forget.0:13", "pr_known.0:13", "verif_nd_bytes.0:8"]
+# loops of the printf contract: flags, width digits, precision digits, length
+# modifiers, the format string itself (longest format of the code: < 64)
+_PR_UNWIND = ["pr_vfmt.0:3", "pr_vfmt.1:12", "pr_vfmt.2:12", "pr_vfmt.3:4", "pr_vfmt.4:64",
+              "pr_ndigits.0:24", "pr_putn.0:24", "pr_init.0:13", "pr_forget.0:13",
+              "pr_known.0:13", "pr_known.1:50", "verif_nd_bytes.0:8"]
 
 def _stat_cases():
     out = []
@@ -23,7 +26,7 @@ def _stat_cases():
         if t == 8:
             for k in (0, 1, 2):
                 out.append(dict(id="dir_ext_idx%d" % k, defines={"ITYPE": 8, "NENT": k},
-                                tier="quick", unwindset=_PR_UNWIND + ["stat_file.1:%d" % (k + 2)]))
+                                tier="quick", unwindset=_PR_UNWIND + ["stat_file.0:2", "stat_file.1:%d" % (k + 2)]))
         else:
             out.append(dict(id=n, defines={"ITYPE": t}, tier="quick"))
     return out
@@ -32,12 +35,12 @@ HARNESSES = [
     # all 14 inode types: 12 here (ext. directory with 0..2 index entries) ...
     dict(name="w13_stat", file="w13_stat.c", timeout=300, malloc_fail=True,
          label="bounded(dir index entries <= 2)",
-         nochecks=["--conversion-check"], flags=["--memory-leak-check"],
+         nochecks=["--conversion-check"], flags=["--memory-leak-check", "--arrays-uf-always"],
          unwindset=_PR_UNWIND + ["stat_file.0:2", "stat_file.1:2"],
          cases=_stat_cases()),
     # ... and the two file types with the loop contract on the block word walk
     dict(name="w13_stat_file", file="w13_stat.c", label="proved", timeout=300, malloc_fail=True,
-         nochecks=["--conversion-check"], flags=["--memory-leak-check"],
+         nochecks=["--conversion-check"], flags=["--memory-leak-check", "--arrays-uf-always"],
          loops=["stat_file"], loop_tables=["C05_w13"],
          unwindset=_PR_UNWIND + ["stat_file.1:2"],
          cases=[dict(id="file", defines={"ITYPE": 2}, tier="quick"),
